@@ -43,7 +43,7 @@ from harness import wholerun as W
 from harness.extract import effects as EX
 
 MANIFEST_ENTRY = {
-    "text": "Lean theorem C12 (Props/C12.lean) proves, for every list of programs whose effects are among those listed in the extracted effect tables, every assignment of tasks to worker processes, every order inside a worker and every initial state of the random generators of each worker, that each task's output equals its output when run alone in a fresh process, hence that two runs from the same generator folder agree task by task (noninterference, induction over the schedule; the general form allows shared containers that no run reads). The hypotheses are discharged by `decide` over Generated/Effects.lean, which an ast pass regenerates from LDAR_Sim/src on every run: every random-number call site reachable from a simulation run draws from the numpy global generator (rng_all_seeded), no function mutates a module/class-level container (no_shared_mutation), the day loop / emission-generation loops / infrastructure construction re-seed first (consumers_reseeded). The real simulator is then run on one generated configuration with all stochastic features multi-valued under repeated, permuted, subset, sequential and pool schedules on a persisted generator folder and every per-program file and the three summaries are compared byte for byte; an observation-only monitor checks per task that no shared container changed, the stdlib generator was not used and nothing was drawn before the first re-seed.",
+    "text": "Lean theorem C12 (Props/C12.lean) proves, for every list of programs whose effects are among those listed in the extracted effect tables, every assignment of tasks to worker processes, every order inside a worker and every initial state of the random generators of each worker, that each task's output equals its output when run alone in a fresh process, hence that two runs from the same generator folder agree task by task (noninterference, induction over the schedule; the general form allows shared containers that no run reads). The hypotheses are discharged by `decide` over Generated/Effects.lean, which an ast pass regenerates from LDAR_Sim/src on every run: every random-number call site reachable from a simulation run draws from the numpy global generator (rng_all_seeded), no function mutates a module/class-level container (no_shared_mutation), the day loop re-seeds first (day_loop_reseeds, the used entry of consumers_reseeded; its emission-generation / infrastructure entries are side obligations about the set-up phase), nothing random is lexically reachable from what a task runs before its first re-seed (prologue_clean, name-based call graph from simulate() and the pre-loop part of run_simulation), every task works on a private deep copy of the infrastructure (private_copy: simulate() deep-copies and uses only the copy - own extraction and C01's Generated/Wiring.lean - and every __reduce__/__setstate__/__deepcopy__ hook of a reachable class keeps deep-copy semantics; the machine has an object-store channel that is shared between the tasks of a simulation iff this fails, C12_needs_private_copy), and every non-RNG nondeterminism source (set iteration, directory listing, wall clock, id/hash) is on a reviewed list with its reason (nondet_all_reviewed; a review list, not a proof). The real simulator is then run on one generated configuration with all stochastic features multi-valued under repeated, permuted, subset, sequential and pool schedules on a persisted generator folder and every per-program file and the three summaries are compared byte for byte; an observation-only monitor checks per task that no shared container changed, the stdlib generator was not used, nothing was drawn before the first re-seed and the pickled arguments of simulate() (infrastructure, weather, daylight, parameter dicts) are left untouched. The drv_effects-vs-Python-rendering stage validates the compiled machine only and is reported under coverage.model_machine_stage, outside evaluations.",
     "design_ref": "DESIGN.md 5.12",
     "note": "trusted: Lean kernel + propext/Classical.choice/Quot.sound; the syntactic extractor (reachability = import closure of ldar_sim_run under LDAR_Sim/src, every function of a reachable module counted; aliases through parameters/returns not seen, backed by the dynamic monitor and the differential runs); harness shims; OS scheduling, pickling through multiprocessing and float formatting are covered only by the differential runs; Logs/ ignored, parameters.yaml and summary row order compared as stated in harness/props/c12.py",
     "technique": "Lean 4 noninterference proof over an effect model + tables extracted from the source by an ast pass on every run + differential whole runs of the real simulator + observation-only effect monitor",
